@@ -43,6 +43,8 @@ def workspace(c):
         "use_group_then_nested_fn": f"use {pcrate}::{{m::Target, m::util::helper_fn, m::Other}};\n",
         "use_deep_group": f"use {pcrate}::{{m::{{Target, Other}}, m}};\n",
         "use_glob": f"use {pcrate}::m::*;\n",
+        # through a crate of the workspace that re-exports the type and has typeshared types of its own, but does not define Target
+        "use_via_facade": "use facade::Target;\n",
         "use_alias": f"use {pcrate}::m::Target as Renamed;\nuse {pcrate}::m::Target;\n",
         "qualified": "",
         "generic_qualified": "",
@@ -65,6 +67,8 @@ def workspace(c):
         consumer += "#[typeshare]\npub struct Wrapper<Target> { pub w: Target, pub more: Vec<Target> }\n"
     path = {"lib": "consumer/src/lib.rs", "deep": "consumer/src/a/b.rs", "deeper": "consumer/src/x/y/z/w.rs"}[c["depth"]]
     files[path] = consumer
+    if form == "use_via_facade":
+        files["facade/src/lib.rs"] = f"pub use {pcrate}::m::Target;\n#[typeshare]\npub struct FacadeOwn {{ pub f: u32 }}\n"
     if same_crate:
         files["consumer/src/local.rs"] = f"#[typeshare]\n{ren}pub struct Target {{ pub local: u32 }}\n"
     return files, same_crate
